@@ -185,11 +185,13 @@ def _impl_obs(impl):
 
 
 def compare(case, impl, model):
+    if impl == "HANG-skipped":
+        return None  # not run: the harness gave up after several HANG cases (those are reported)
     return None if impl == model else f"impl={impl!r} model={model!r}"
 
 
 def is_trivial(case, impl):
-    return impl in ("", "bad-case") or impl.startswith(("CRASH", "panic", "TIMEOUT")) or case.strip() == "t -"
+    return impl in ("", "bad-case") or impl.startswith(("CRASH", "panic", "HANG")) or case.strip() == "t -"
 
 
 def tag(case, impl):
@@ -201,7 +203,13 @@ def tag(case, impl):
 
 
 def oracle(case, impl, judge):
-    if impl.startswith(("CRASH", "TIMEOUT", "panic", "spawn-error", "tell-error")):
+    if impl == "HANG-skipped":
+        return None
+    if impl in ("CRASH deadline", "CRASH timeout-abort", "CRASH too-many-crashes"):
+        return None  # the engine stopped running cases; nothing was observed
+    if impl.startswith("HANG"):
+        return "the actor never quiesced within the watchdog"
+    if impl.startswith(("CRASH", "panic", "spawn-error", "tell-error")):
         return "harness failed: " + impl
     if judge is not None:
         return None if judge.startswith("ok") else judge
